@@ -1437,6 +1437,15 @@ impl Checker
                                 {
                                     self.viol_sys("C07", Some(s), format!("reactor {s} was garbage collected while {} of its triggers are still registered or pending", self.arcs[a].count));
                                     self.viol_sys("C13", Some(s), format!("system {s} was collected although it still has registered triggers: its system state (locals, captured values) is lost while it should live"));
+                                    // deliveries waiting for it (postponed behind its own execution, or applied and not yet
+                                    // entered) can no longer run although their target should exist
+                                    let waiting: Vec<u64> = self.deliveries.values()
+                                        .filter(|x| x.sys == Some(s) && matches!(x.status, DStatus::Applied | DStatus::Entered | DStatus::Postponed))
+                                        .map(|x| x.id).collect();
+                                    if !waiting.is_empty()
+                                    {
+                                        self.viol_sys("C02", Some(s), format!("system {s} was collected although it still has registered triggers while deliveries {:?} to it are waiting: they cannot run although their target should exist", waiting));
+                                    }
                                 }
                                 self.arcs[a].collected = true;
                             }
